@@ -1054,6 +1054,32 @@ func (fr *Frame) havocLocation(env *SpecEnv, a Expr, fc *FuncContract) {
 			}
 		}
 		if idx < 0 {
+			if off, cnt, _, ok := x.eng.ghostField(base.T, n.Name); ok {
+				np := x.normPtr(&p)
+				o, _, idx := x.compRange(np)
+				if np.Local == nil && np.Global == nil && !np.Elem && len(idx) == 0 {
+					for j := o + off; j < o+off+cnt; j++ {
+						key, srt := x.eng.heapKey("H", np.RootT, j)
+						h := x.heapGet(fr.cur, key)
+						nv := x.ctx.Fresh("gasg", ElemSort(srt))
+						if x.eng.layout(np.RootT)[j].Kind == "ghostlen" {
+							x.ctx.Assume(Le(IntLit(0), nv))
+						}
+						x.heapSetAt(fr.cur, key, x.ctx.Name("H", Store(h, np.Heap, nv)), np.Heap)
+					}
+					return
+				}
+				cur := x.Load(fr.cur, np)
+				nv := &Value{T: cur.T, C: append([]Term(nil), cur.C...)}
+				for j := off; j < off+cnt; j++ {
+					nv.C[j] = x.ctx.Fresh("gasg", cur.C[j].Sort)
+					if x.eng.layout(cur.T)[j].Kind == "ghostlen" {
+						x.ctx.Assume(Le(IntLit(0), nv.C[j]))
+					}
+				}
+				x.Store(fr.cur, np, nv)
+				return
+			}
 			sfail("assigns: no field %s", n.Name)
 		}
 		p.Path = append(append([]PathEl(nil), p.Path...), PathEl{Field: idx})
